@@ -91,6 +91,7 @@ import logging
 import os
 import pprint
 import threading
+import tokenize
 import traceback
 import typing
 from typing import Any, Callable, Dict, Optional, Sequence, Set, Tuple, Type, Union, Mapping, List
@@ -1064,7 +1065,8 @@ def _format_value(value):
   try:
     if parse_value(literal) == value:
       return literal
-  except SyntaxError:
+  except (SyntaxError, tokenize.TokenError):
+    # `TokenError`: the text ends inside a bracket or a string ('[1, 2,').
     pass
   return None
 
